@@ -3,7 +3,8 @@
    invariant over the line iterator of the breaker ("every valid mandatory boundary beyond the line start is still ahead
    of the iterator, or pending re-issue") threaded through both loops of wrapNextLine, postProcessLine and any sequence of
    WrapNextLine calls.  The invariant is lost only when a call returns a nil line while the wrapper stays live (the
-   pattern of finding F37), which the final statement excludes by hypothesis. *)
+   pattern of the repaired finding F37), which mandatory_lines_all excludes by hypothesis; Proofs/WrapValid.v proves that
+   no call does (calls_valid) and states the result without that hypothesis (mandatory_lines_full). *)
 From TV Require Import Model.Wrap Spec.Wrap Spec.WrapCut Proofs.Wrap Proofs.WrapCut Proofs.WrapLines Proofs.WrapTotal
   Proofs.WrapStore Proofs.WrapMand.
 
@@ -189,14 +190,15 @@ Definition PostM (s : Z) (lc : line_cfg) (w' : W) (d : bool) : Prop :=
   /\ (d = false -> lc_truncating lc = false -> has_best w' = true ->
       forall p, best_end w' < p -> vm p -> U (w_br w') p).
 
-Lemma inner_M : forall fuel w lc w' d,
+Lemma inner_M : forall fuel w wopt lc w' d,
   JT n w -> OrdI w -> 1 <= b_wpos (w_br w) <= n -> fst (b_unusedW (w_br w)) = b_wpos (w_br w) - 1 ->
+  fst wopt = b_wpos (w_br w) - 1 ->
   (forall p, w_start w < p -> vm p -> b_wpos (w_br w) <= p) ->
   best_end w <= Z.max (w_start w) (b_wpos (w_br w)) ->
   (b_isUnusedW (w_br w) = true \/ has_best w = false \/ lc_truncating lc = true) ->
-  inner_loop fuel w lc = Ok (w', d) -> PostM (w_start w) lc w' d.
+  inner_loop fuel w wopt lc = Ok (w', d) -> PostM (w_start w) lc w' d.
 Proof.
-  induction fuel as [|fuel IH]; intros w lc w' d HT HO HW HU Ki Bi Fi H; cbn [inner_loop] in H; [discriminate|].
+  induction fuel as [|fuel IH]; intros w wopt lc w' d HT HO HW HU HWo Ki Bi Fi H; cbn [inner_loop] in H; [discriminate|].
   destruct (JT_checkpoint n w HT) as (T1 & Csv & Calt & Cbe & Cbr & Cbest).
   pose proof (best_end_ge n w (proj1 HT)) as BG.
   set (w1 := checkpoint w) in *.
@@ -213,12 +215,40 @@ Proof.
   destruct (Bk_ug_n n _ Bb1) as (G1 & G2 & G3).
   set (b := w_br w) in *.
   destruct ro as [opt|].
-  2:{ cbv beta iota zeta in H. injection H as <- <-. split.
-      - intros p Hp Hv. rewrite Q6. specialize (Ki p Hp Hv). lia.
-      - intros _ Hlc Hhb p Hp Hv. rewrite Q6 in Hp. rewrite Q2.
-        rewrite (has_best_same w w2 Q4) in Hhb.
-        destruct Fi as [Fi|[Fi|Fi]]; [|congruence|congruence].
-        apply U_intro; [rewrite S1; apply Ki; [lia|exact Hv]|rewrite S4; exact Fi]. }
+  2:{ cbv beta iota zeta in H.
+      assert (Rw2 : restore w2 = w2) by (unfold w2, w1; destruct w as [? ? ? ? ? ? ? ? ? [? ? ? ? ?] ?]; reflexivity).
+      assert (Old : forall wx, w_br wx = b1 -> best_end wx = best_end w -> has_best wx = has_best w -> PostM (w_start w) lc wx false).
+      { intros wx Bx Ex Hx. split.
+        - intros p Hp Hv. rewrite Ex. specialize (Ki p Hp Hv). lia.
+        - intros _ Hlc Hhb p Hp Hv. rewrite Ex in Hp. rewrite Bx. rewrite Hx in Hhb.
+          destruct Fi as [Fi|[Fi|Fi]]; [|congruence|congruence].
+          apply U_intro; [rewrite S1; apply Ki; [lia|exact Hv]|rewrite S4; exact Fi]. }
+      unfold word_fallback in H.
+      destruct (negb (lc_truncating lc) && negb (has_best w2)) eqn:FB.
+      2:{ injection H as <- <-. apply Old; [exact Q2|exact Q6|exact (has_best_same w w2 Q4)]. }
+      apply andb_prop in FB. destruct FB as [FB1 FB2]. apply negb_true_iff in FB1, FB2.
+      rewrite (has_best_same w w2 Q4) in FB2. rewrite Rw2 in H.
+      assert (Hord : s_alt (w_sc w2) <> [] -> lend (w_start w2) (s_alt (w_sc w2)) <= fst wopt).
+      { rewrite Q1. rewrite (JT_no_best_alt n w HT FB2). congruence. }
+      destruct (process_break_option w2 wopt lc) as [[[w3 r] cand]| | |] eqn:PB; cbn [bind] in H; try discriminate.
+      destruct (JP_pbo n w2 wopt lc w3 r cand (proj1 T2) ltac:(lia) Hord PB) as (P3 & F3 & BE3 & LE3 & C3 & L3).
+      destruct F3 as (_ & _ & F3s & _ & _ & _ & F3b & F3v & F3best).
+      rewrite Q2 in F3b. rewrite Q5 in F3v. rewrite Q4 in F3best. rewrite Q3 in F3s. rewrite Q6 in BE3.
+      destruct (restore_proj w3) as (R1 & R2 & R3 & R4).
+      cbv beta iota zeta in H.
+      assert (Hcase : (r = BreakInvalid /\ w' = restore w3 /\ d = false) \/ (r <> BreakInvalid /\ w' = mark_best w3 [cand] /\ d = false)).
+      { destruct r; injection H as <- <-; first [left; repeat split; reflexivity | right; repeat split; try reflexivity; discriminate]. }
+      clear H. destruct Hcase as [(Hr & -> & ->)|(Hr & -> & ->)].
+      - apply Old; [rewrite R2; exact F3b|rewrite best_end_restore; exact BE3|].
+        rewrite (has_best_same w3 (restore w3) R4). apply has_best_same. exact F3best.
+      - destruct (C3 Hr) as (C31 & C32 & C33). rewrite Q3 in C31.
+        assert (Hsv : lend (w_start w3) (s_save (w_sc w3)) <= fst wopt + 1).
+        { rewrite F3v, F3s, (JT_no_best_alt n w HT FB2). unfold lend; cbn. lia. }
+        destruct (JT_mark_best n w3 cand (fst wopt + 1) P3 C33 C32 Hsv ltac:(lia)) as [T4 BE4].
+        destruct (mark_best_proj w3 [cand]) as (M1 & M2 & M3 & M4).
+        split.
+        + intros p Hp Hv. rewrite BE4. specialize (Ki p Hp Hv). lia.
+        + intros _ _ _ p Hp Hv. rewrite BE4 in Hp. rewrite M2, F3b. left. rewrite S1. lia. }
   destruct X as (X1 & X2 & X3 & X4 & X5 & X6 & X7 & X8).
   assert (X1' : fst opt = fst (b_unusedG b1)) by (rewrite X1; reflexivity).
   assert (Hord : s_alt (w_sc w2) <> [] -> lend (w_start w2) (s_alt (w_sc w2)) <= fst opt).
@@ -246,11 +276,12 @@ Proof.
   assert (HBr : has_best (restore w3) = has_best w) by (apply has_best_same; rewrite R4; exact F3best).
   destruct r.
   - (* BreakInvalid *)
-    rewrite <- F3s, <- R3. apply (IH (restore w3) lc w' d); auto.
+    rewrite <- F3s, <- R3. apply (IH (restore w3) wopt lc w' d); auto.
     + apply JT_restore; exact P3.
     + unfold OrdI. rewrite R1, R2, R3, F3v, F3s, F3b. intros Hne. destruct (HO Hne) as [O|O]; fold b in O; [left; rewrite S3; exact O|right; lia].
     + rewrite R2, F3b, S1. exact HW.
     + rewrite R2, F3b, S1, S2. exact HU.
+    + rewrite R2, F3b, S1. exact HWo.
     + rewrite R2, F3b, R3, F3s, S1. exact Ki.
     + rewrite best_end_restore, BE3, R3, F3s, R2, F3b, S1. exact Bi.
     + rewrite R2, F3b, S4, HBr. exact Fi.
@@ -276,10 +307,11 @@ Proof.
     pose proof (JT_set_br n _ _ T4 Mw) as T5.
     destruct (set_br_proj (mark_best w3 [cand]) (mark_word_unused b1)) as (U1 & U2 & U3 & U4 & U5).
     assert (St5 : w_start (set_br (mark_best w3 [cand]) (mark_word_unused b1)) = w_start w) by (rewrite U3, M3; exact F3s).
-    rewrite <- St5. apply (IH (set_br (mark_best w3 [cand]) (mark_word_unused b1)) lc w' d); [exact T5| | | | | | |exact H].
+    rewrite <- St5. apply (IH (set_br (mark_best w3 [cand]) (mark_word_unused b1)) wopt lc w' d); [exact T5| | | | | | | |exact H].
     + unfold OrdI. rewrite U1, U2, U3, M1, M3. cbn. intros _. right. lia.
     + rewrite U2; cbn. rewrite S1; exact HW.
     + rewrite U2; cbn. rewrite S1, S2; exact HU.
+    + rewrite U2; cbn. rewrite S1; exact HWo.
     + rewrite St5, U2. cbn. rewrite S1. exact Ki.
     + rewrite best_end_set_br, BE4, St5, U2. cbn. rewrite S1. lia.
     + left. rewrite U2. reflexivity.
@@ -370,31 +402,38 @@ Proof.
               b_prevW (w_br wx) = b_prevW b1 -> b_wpos (w_br wx) = b_wpos b1 -> b_unusedW (w_br wx) = b_unusedW b1 ->
               best_end wx <= Z.max (w_start w) (b_wpos b1) ->
               (b_isUnusedW (w_br wx) = true \/ has_best wx = false \/ lc_truncating lc = true) ->
-              inner_loop (br_fuel wx) (restore wx) lc = Ok (w', d) -> PostM (w_start w) lc w' d).
+              inner_loop (br_fuel wx) (restore wx) opt lc = Ok (w', d) -> PostM (w_start w) lc w' d).
   { intros wx Px Sx Stx Pwx Wx Ux Bx Fx Hx. destruct (restore_proj wx) as (Rx1 & Rx2 & Rx3 & Rx4).
-    rewrite <- Stx, <- Rx3. eapply inner_M; [apply JT_restore; exact Px| | | | | | |exact Hx].
+    rewrite <- Stx, <- Rx3. eapply (inner_M _ _ opt); [apply JT_restore; exact Px| | | | | | | |exact Hx].
     - unfold OrdI. rewrite Rx1, Rx2, Rx3, Sx, Stx, Pwx. intros Hne. left. destruct (HO Hne) as [O1 O2]. fold b in O1, O2.
       destruct (b_isUnusedW b) eqn:FB; [cbn in O2; lia|]. rewrite (X9 eq_refl). exact O1.
     - rewrite Rx2, Wx. lia.
     - rewrite Rx2, Wx, Ux. lia.
+    - rewrite Rx2, Wx. lia.
     - rewrite Rx3, Stx, Rx2, Wx. exact P0.
     - rewrite best_end_restore, Rx3, Stx, Rx2, Wx. exact Bx.
     - rewrite Rx2, (has_best_same wx (restore wx) Rx4). exact Fx. }
   destruct r.
-  - (* BreakInvalid *)
-    cbv beta iota zeta in H.
-    assert (Sr : sk (w_st (restore w3)) = sk st0) by (rewrite <- Hsk, <- Sk3; destruct w3; reflexivity).
-    rewrite <- F3s, <- R3. apply (IH (restore w3) lc w' d); [apply JT_restore; exact P3| |apply XI_restore; exact XC3| | | | | | |exact H].
-    + unfold OrdO. rewrite R1, R2, R3, F3v, F3s, F3b, FW. intros Hne. destruct (HO Hne) as [O1 O2]. fold b in O1. split; [lia|reflexivity].
-    + rewrite R2, F3b. exact HBW1.
-    + rewrite R2, F3b, HA1. exact HA.
+  - (* BreakInvalid: the option is discarded *)
+    cbv beta iota zeta in H. rewrite R2, F3b in H.
+    destruct (set_br_proj (restore w3) (discard_word b1)) as (D1 & D2 & D3 & D4 & D5).
+    assert (Sr : sk (w_st (set_br (restore w3) (discard_word b1))) = sk st0) by (rewrite <- Hsk, <- Sk3; destruct w3; reflexivity).
+    rewrite <- F3s, <- R3, <- D3.
+    apply (IH (set_br (restore w3) (discard_word b1)) lc w' d);
+      [apply JT_set_br; [apply JT_restore; exact P3|apply Bk_discard; assumption]| |apply XI_set_br; apply XI_restore; exact XC3| | | | | | |exact H].
+    + unfold OrdO. rewrite D1, D2, D3, R1, R3, F3v, F3s. cbn [discard_word b_unusedW b_isUnusedW]. rewrite FW.
+      intros Hne. destruct (HO Hne) as [O1 O2]. fold b in O1, O2.
+      destruct (b_isUnusedW b) eqn:FB; [cbn in O2; lia|]. rewrite (X9 eq_refl). split; [exact O1|reflexivity].
+    + rewrite D2. apply BW_discard; assumption.
+    + rewrite D2. cbn. rewrite HA1. exact HA.
     + exact Sr.
-    + replace (w_runs (restore w3)) with (w_runs w3) by (destruct w3; reflexivity). rewrite F3r. exact Hruns.
-    + intros p Hp Hv. rewrite R3, F3s in Hp. rewrite R2, F3b. pose proof (P0 p Hp Hv) as Pp.
+    + replace (w_runs (set_br (restore w3) (discard_word b1))) with (w_runs w3) by (destruct w3; reflexivity). rewrite F3r. exact Hruns.
+    + intros p Hp Hv. rewrite D3, R3, F3s in Hp. rewrite D2. pose proof (P0 p Hp Hv) as Pp.
+      unfold U. cbn [discard_word b_wpos b_isUnusedW].
       left. destruct (Z.eq_dec p (b_wpos b1)) as [E|E]; [exfalso|lia].
       destruct (Inv3 eq_refl) as [I|I]; [lia|]. apply I. replace (fst opt + 1) with p by lia.
       destruct Hv as (_ & _ & _ & V4). rewrite Hruns. apply (CBall_sk st0); [symmetry; exact Hsk|exact V4].
-    + rewrite best_end_restore, BE3, R3, F3s, R2, F3b. exact Bmax.
+    + rewrite best_end_set_br, best_end_restore, BE3, D3, R3, F3s, D2. cbn [discard_word b_wpos]. exact Bmax.
   - (* EndLine *)
     cbv beta iota zeta in H. injection H as <- <-. destruct (Best1 ltac:(discriminate)) as (_ & _ & _ & BE4).
     split; [|discriminate]. intros p Hp Hv. rewrite BE4. specialize (P0 p Hp Hv). lia.
